@@ -47,13 +47,7 @@ impl D {
         matches!(self, D::U8 | D::U16 | D::U32 | D::U64)
     }
     pub fn class(self) -> &'static str {
-        if self.is_float() {
-            "float"
-        } else if self.is_unsigned() {
-            "uint"
-        } else {
-            "int"
-        }
+        if self.is_float() { "float" } else { "integer" }
     }
     pub fn bits(self) -> u32 {
         match self {
@@ -180,17 +174,19 @@ impl D {
     }
     /// Exact integer result (no range check); `None` for division by zero.
     pub fn int_arith(op: Arith, a: C, b: C) -> Option<C> {
-        Some(match op {
-            Arith::Add => a + b,
-            Arith::Sub => a - b,
-            Arith::Mul => a * b,
+        // (u64::MAX)^2 does not fit i128: a product that overflows i128 is
+        // certainly not representable in any 64-bit result type
+        match op {
+            Arith::Add => a.checked_add(b),
+            Arith::Sub => a.checked_sub(b),
+            Arith::Mul => a.checked_mul(b),
             Arith::Div => {
                 if b == 0 {
                     return None;
                 }
-                a / b // truncating, like the engine's integer division
+                Some(a / b) // truncating, like the engine's integer division
             }
-        })
+        }
     }
     pub fn arith(self, op: Arith, a: C, b: C) -> Option<C> {
         match self {
@@ -215,17 +211,7 @@ impl D {
                 if r.is_nan() { None } else { Some(r.to_bits() as C) }
             }
             _ => {
-                let r = match op {
-                    Arith::Add => a + b,
-                    Arith::Sub => a - b,
-                    Arith::Mul => a * b,
-                    Arith::Div => {
-                        if b == 0 {
-                            return None;
-                        }
-                        a / b // truncating, like the engine's integer division
-                    }
-                };
+                let r = D::int_arith(op, a, b)?;
                 if r < self.imin() || r > self.imax() { None } else { Some(r) }
             }
         }
@@ -437,6 +423,11 @@ pub fn norm(d: D, iv: &Iv) -> Iv {
     } else {
         Iv { lo: Some(iv.lo.unwrap_or(d.imin())), hi: Some(iv.hi.unwrap_or(d.imax())) }
     }
+}
+/// The other reading of an unbounded end: genuinely infinite (only the
+/// documented `UInt` lower-bound normalisation to 0 is applied).
+pub fn norm_inf(d: D, iv: &Iv) -> Iv {
+    if d.is_unsigned() && iv.lo.is_none() { Iv { lo: Some(0), hi: iv.hi } } else { *iv }
 }
 /// a ⊆ b ?  (both already normalised with [`norm`]; `d` only supplies the order)
 pub fn subset(d: D, a: &Iv, b: &Iv) -> bool {
